@@ -7,32 +7,9 @@
      packing lemmas        tf_dec_enc, tf_wf_step, tf_mrun for the lock-step tie. *)
 From Coq Require Import NArith List Bool Arith Lia.
 Import ListNotations.
-From LunaLib Require Import Netlist Machine PackN.
+From LunaLib Require Import Netlist Machine PackN ListMem.
 From LunaModel Require Import TxFifo.
 Open Scope nat_scope.
-
-(* ------------------------------------------------------------------------------------------ *)
-(* memory update                                                                                *)
-Lemma upd_length : forall l a v, length (upd a v l) = length l.
-Proof. induction l as [|x t IH]; intros [|a] v; simpl; try reflexivity. rewrite IH. reflexivity. Qed.
-
-Lemma nth_upd_same : forall l a v, a < length l -> nth a (upd a v l) 0%N = v.
-Proof.
-  induction l as [|x t IH]; intros a v H; simpl in H; [lia|].
-  destruct a as [|a]; simpl; [reflexivity | apply IH; lia].
-Qed.
-
-Lemma nth_upd_other : forall l a b v, a <> b -> nth b (upd a v l) 0%N = nth b l 0%N.
-Proof.
-  induction l as [|x t IH]; intros a b v H; [destruct a; reflexivity|].
-  destruct a as [|a], b as [|b]; simpl; try reflexivity; [lia | apply IH; lia].
-Qed.
-
-Lemma upd_Forall : forall (P : N -> Prop) l a v, P v -> Forall P l -> Forall P (upd a v l).
-Proof.
-  induction l as [|x t IH]; intros [|a] v Hv H; simpl; try exact H;
-    inversion H; subst; constructor; auto.
-Qed.
 
 (* ------------------------------------------------------------------------------------------ *)
 (* ring arithmetic: everything is if-then-else over nat, decided by case split + lia            *)
@@ -377,12 +354,6 @@ End Queue.
 
 (* ------------------------------------------------------------------------------------------ *)
 (* Packing facts for the lock-step tie                                                          *)
-Lemma Forall_nth_lt : forall (B : N) l a, (0 < B)%N -> Forall (fun x => (x < B)%N) l -> (nth a l 0 < B)%N.
-Proof.
-  induction l as [|x t IH]; intros a HB H; [destruct a; exact HB|].
-  inversion H; subst. destruct a; simpl; [assumption | apply IH; assumption].
-Qed.
-
 Lemma tf_dec_enc : forall depth width st, tf_wf depth width st -> tf_dec depth width (tf_enc depth width st) = st.
 Proof.
   intros depth width [cw w cr r mem rd] (H1 & H2 & H3 & H4 & H5 & H6 & H7).
